@@ -205,7 +205,11 @@ class Mount:
     """
 
     def __init__(self):
-        self.dir = tempfile.mkdtemp(prefix='yatiml_simmount.')
+        self.dir = os.path.realpath(tempfile.mkdtemp(prefix='yatiml_simmount.'))
+        # a little directory structure: names may reach a file through a sub-directory, or
+        # through a symlinked directory followed by '..' (which the OS resolves link first)
+        os.makedirs(os.path.join(self.dir, 'real', 'inner'))
+        os.symlink(os.path.join('real', 'inner'), os.path.join(self.dir, 'link'))
         self.files = {}
         self.plans = {}         # path -> raw plan for the next open
         self.open_faults = {}   # path -> errno name
@@ -216,16 +220,21 @@ class Mount:
     def path(self, name):
         return os.path.join(self.dir, name)
 
+    @staticmethod
+    def key(p):
+        """The file a name denotes, as the OS resolves it (symlinks before '..')."""
+        return os.path.realpath(p)
+
     def put(self, name, data):
         p = self.path(name)
-        self.files[p] = SimFile(data)
+        self.files[self.key(p)] = SimFile(data)
         with _real_open(p, 'wb') as f:
             f.write(data)
         return p
 
     def remove(self, name):
         p = self.path(name)
-        self.files.pop(p, None)
+        self.files.pop(self.key(p), None)
         try:
             getattr(self, '_real_unlink', os.unlink)(p)
         except FileNotFoundError:
@@ -234,7 +243,7 @@ class Mount:
     def content(self, name):
         """Bytes of a sink: from the device if it was opened there, else real file."""
         p = self.path(name)
-        sf = self.files.get(p)
+        sf = self.files.get(self.key(p))
         if sf is not None and sf.opened_for_write:
             return bytes(sf.data), 'device'
         try:
@@ -257,14 +266,15 @@ class Mount:
             p = None
         if isinstance(p, bytes):
             p = os.fsdecode(p)
-        if p is None or not os.path.abspath(p).startswith(self.dir + os.sep):
+        if p is None or not self.key(p).startswith(self.dir + os.sep):
             return _real_open(file, mode, buffering, encoding, errors, newline,
                               closefd, opener)
-        p = os.path.abspath(p)
+        named = os.path.abspath(p)
+        p = self.key(p)
         st = self.iostats
         st.opened.append((os.path.basename(p), mode))
-        if p in self.open_faults:
-            en = self.open_faults[p]
+        if p in self.open_faults or named in self.open_faults:
+            en = self.open_faults[p] if p in self.open_faults else self.open_faults[named]
             st.faults_fired.append(('open', en, 0))
             raise OSError(ERRNOS[en], os.strerror(ERRNOS[en]), p)
         binary = 'b' in mode
@@ -282,7 +292,7 @@ class Mount:
                 _real_open(p, 'ab').close()     # the name exists from now on
             except OSError:
                 pass
-        raw = SimRawIO(self.files[p], m, self.plans.get(p), st, name=p)
+        raw = SimRawIO(self.files[p], m, self.plans.get(p) or self.plans.get(named), st, name=p)
         if buffering == 0:
             if not binary:
                 raise ValueError("can't have unbuffered text I/O")
@@ -309,11 +319,12 @@ class Mount:
 
     def _inside(self, path):
         try:
-            p = os.path.abspath(os.fspath(path))
+            p = os.fspath(path)
         except TypeError:
             return None
         if isinstance(p, bytes):
             p = os.fsdecode(p)
+        p = self.key(p)
         return p if p.startswith(self.dir + os.sep) else None
 
     def _replace(self, src, dst, **kw):
